@@ -15,6 +15,17 @@ json.dump({"classes": json.loads(json.dumps(wire_signature(ck)))}, open(os.path.
 data = repo.const("skepticoin.genesis.genesis_block_data")
 open(os.path.join(ref, "genesis.sha256"), "w").write(hashlib.sha256(data).hexdigest() + "  genesis_block_data (%d bytes)\n" % len(data))
 json.dump(sorted(repo.functions), open(os.path.join(ref, "api_functions.json"), "w"), indent=0)
+from verif.engine.walker import exc_class
+rc = {}
+for q, fi in sorted(repo.functions.items()):
+    if fi.module.name in ("skepticoin.consensus", "skepticoin.serialization", "skepticoin.datatypes", "skepticoin.signing", "skepticoin.networking.messages"):
+        summ = ck.walker.summary(q, 0)
+        cl = sorted({exc_class(e) for e in summ.raises() if not e.chain})
+        if cl:
+            rc[q] = cl
+from verif.engine.walker import exc_ancestors
+hier = {q: sorted(exc_ancestors(repo, q)) for q, ci in sorted(repo.classes.items()) if "Exception" in exc_ancestors(repo, q) or "BaseException" in exc_ancestors(repo, q)}
+json.dump({"raises": rc, "ancestors": hier}, open(os.path.join(ref, "raise_classes.json"), "w"), indent=0, sort_keys=True)
 from verif.selftest.runner import tree_digest
 open(os.path.join(ref, "tree.sha256"), "w").write(tree_digest(repo.root) + "  skepticoin/**/*.py of the tree the corpora were confirmed on\n")
 print(len(table), "checkpoints; genesis", len(data), "bytes;", len(repo.functions), "functions")
